@@ -14,6 +14,9 @@
 //   fpconv parse P Q SUFFIXES THREADS      parser over all spellings i.fEe (+ suffixes)
 //   fpconv one-fmt HEXBITS                 one value   (confirm / replay)
 //   fpconv one-parse STRING                one spelling (confirm / replay)
+//   fpconv hist seam|real HISTORY P Q THREADS   every spelling in every step of a history of
+//                                          process-locale decimal points, e.g. ".,." (see do_hist)
+//   fpconv one-hist seam|real HISTORY STRING    one spelling through a history (confirm / replay)
 //
 // Output: one JSON object on stdout.
 #include <algorithm>
@@ -25,6 +28,7 @@
 #include <cstdlib>
 #include <cstring>
 #include <clocale>
+#include <locale.h>
 #include <string>
 #include <thread>
 #include <vector>
@@ -49,12 +53,20 @@ static inline void apply_fpenv() {
 
 extern "C" double pstrtod_comma(const char *nptr, char **endptr);
 
-// ------------------------------------------------------------------ comma-locale libc
+// ------------------------------------------------------------------ modelled-locale libc
+// The stand-ins are STATEFUL: g_seam_comma is the decimal point of the modelled process
+// locale (1: ',', 0: '.') and can be switched between sweeps of one process, exactly like
+// setlocale(LC_NUMERIC, ...) switches the answers of the real strtod/localeconv.  The
+// default is ',' (the constant-locale model of the `parse` mode).
+static std::atomic<int> g_seam_comma(1);
+
 static size_t swap_copy(const char *s, std::string &out) {
   out.assign(s);
-  for (char &c : out) {
-    if (c == ',') c = '.';
-    else if (c == '.') c = ',';
+  if (g_seam_comma.load(std::memory_order_relaxed)) {
+    for (char &c : out) {
+      if (c == ',') c = '.';
+      else if (c == '.') c = ',';
+    }
   }
   return out.size();
 }
@@ -81,8 +93,8 @@ extern "C" long double verif_comma_strtold(const char *nptr, char **endptr) {
 }
 extern "C" double verif_comma_atof(const char *nptr) { return verif_comma_strtod(nptr, nullptr); }
 extern "C" struct lconv *verif_comma_localeconv(void) {
-  // initialised once (thread-safe static initialisation); read-only afterwards
-  static struct lconv lc = []() {
+  // two read-only answers, initialised once (thread-safe static initialisation)
+  static struct lconv lc_comma = []() {
     static char comma[] = ",";
     static char dot[] = ".";
     struct lconv l = *localeconv();
@@ -90,7 +102,15 @@ extern "C" struct lconv *verif_comma_localeconv(void) {
     l.thousands_sep = dot;
     return l;
   }();
-  return &lc;
+  static struct lconv lc_dot = []() {
+    static char dot[] = ".";
+    static char none[] = "";
+    struct lconv l = *localeconv();
+    l.decimal_point = dot;
+    l.thousands_sep = none;
+    return l;
+  }();
+  return g_seam_comma.load(std::memory_order_relaxed) ? &lc_comma : &lc_dot;
 }
 
 // ---------------------------------------------------------------------------- helpers
@@ -371,6 +391,92 @@ static int do_parse(int p, int q, int suffixes, int threads) {
   return 0;
 }
 
+// --------------------------------------------------------------- locale-switch histories
+// A history is a string over {'.', ','}: the decimal point of the process locale during
+// each step.  In every step ALL spellings i.fEe (<= p, <= q digits, 16 exponents) are
+// parsed; between steps the locale is switched.  mode "seam": the parser is the object
+// compiled against the stateful stand-ins above; mode "real": the parser is the plain
+// object and the switch is a real setlocale(LC_NUMERIC, "xx_XX" | "C") (LOCPATH must point
+// to a compiled ','-locale named xx_XX).  Oracle: strtod_l with an explicit "C" locale.
+struct HistBad { int step; char state; std::string s; uint64_t exp, got; long exp_end, got_end; };
+
+static bool hist_switch(bool real, char state) {
+  if (!real) { g_seam_comma.store(state == ',' ? 1 : 0); return true; }
+  if (setlocale(LC_NUMERIC, state == ',' ? "xx_XX" : "C") == nullptr) return false;
+  return strcmp(localeconv()->decimal_point, state == ',' ? "," : ".") == 0;
+}
+
+static int do_hist(bool real, const char *history, int p, int q, int threads, const char *only) {
+  locale_t c_loc = newlocale(LC_ALL_MASK, "C", (locale_t)0);
+  if (c_loc == (locale_t)0) { fprintf(stderr, "fpconv: newlocale(C) failed\n"); return 4; }
+  std::vector<std::string> ints, fr, fracs;
+  digit_strings(p, ints);
+  digit_strings(q, fr);
+  fracs.push_back("");
+  for (auto &f : fr) fracs.push_back("." + f);
+  std::vector<std::string> all;
+  if (only != nullptr) {
+    all.push_back(only);
+  } else {
+    for (auto &I : ints)
+      for (auto &F : fracs) {
+        if (I.empty() && F.size() <= 1) continue;
+        for (int x = 0; x < NEXP; ++x) all.push_back(I + F + EXPS[x]);
+      }
+  }
+  size_t nsteps = strlen(history);
+  uint64_t checked = 0, after_switch = 0, bad = 0;
+  std::vector<HistBad> first;
+  std::vector<uint64_t> bad_per_step(nsteps, 0);
+  for (size_t st = 0; st < nsteps; ++st) {
+    if (!hist_switch(real, history[st])) {
+      fprintf(stderr, "fpconv: cannot switch to the '%c' locale (LOCPATH?)\n", history[st]);
+      return 4;
+    }
+    bool switched = st > 0 && history[st] != history[st - 1];
+    std::vector<std::vector<HistBad> > fb(threads);
+    std::vector<uint64_t> nb(threads, 0);
+    std::vector<std::thread> th;
+    for (int t = 0; t < threads; ++t) {
+      th.emplace_back([&, t]() {
+        apply_fpenv();
+        size_t a = all.size() * t / threads, b = all.size() * (t + 1) / threads;
+        for (size_t i = a; i < b; ++i) {
+          const char *s = all[i].c_str();
+          char *e0 = nullptr, *e1 = nullptr;
+          double exp = strtod_l(s, &e0, c_loc);
+          double got = real ? pstrtod(s, &e1) : pstrtod_comma(s, &e1);
+          if (bits_of(got) != bits_of(exp) || e1 != e0) {
+            nb[t]++;
+            if (fb[t].size() < K)
+              fb[t].push_back(HistBad{(int)st, history[st], all[i], bits_of(exp), bits_of(got),
+                                      (long)(e0 - s), (long)(e1 - s)});
+          }
+        }
+      });
+    }
+    for (auto &x : th) x.join();
+    checked += all.size();
+    if (switched) after_switch += all.size();
+    for (int t = 0; t < threads; ++t) {
+      bad += nb[t]; bad_per_step[st] += nb[t];
+      for (auto &f : fb[t]) if (first.size() < K) first.push_back(f);
+    }
+  }
+  if (real) setlocale(LC_NUMERIC, "C");
+  printf("{\"mode\":\"hist-%s\",\"history\":%s,\"checked\":%" PRIu64 ",\"after_switch\":%" PRIu64
+         ",\"bad\":%" PRIu64 ",\"bad_per_step\":[", real ? "real" : "seam", jstr(history).c_str(), checked,
+         after_switch, bad);
+  for (size_t i = 0; i < nsteps; ++i) printf("%s%" PRIu64, i ? "," : "", bad_per_step[i]);
+  printf("],\"first_bad\":[");
+  for (size_t i = 0; i < first.size(); ++i)
+    printf("%s{\"step\":%d,\"state\":\"%c\",\"s\":%s,\"exp\":\"%016" PRIx64 "\",\"got\":\"%016" PRIx64
+           "\",\"exp_end\":%ld,\"got_end\":%ld}", i ? "," : "", first[i].step, first[i].state,
+           jstr(first[i].s).c_str(), first[i].exp, first[i].got, first[i].exp_end, first[i].got_end);
+  printf("]}\n");
+  return 0;
+}
+
 int main(int argc, char **argv) {
   if (argc < 2) return 2;
   const char *fe = getenv("FPCONV_FPENV");
@@ -381,6 +487,13 @@ int main(int argc, char **argv) {
   if (m == "fmt-f32" && argc == 5)
     return do_fmt_f32(strtoull(argv[2], 0, 0), strtoull(argv[3], 0, 0), atoi(argv[4]));
   if (m == "parse" && argc == 6) return do_parse(atoi(argv[2]), atoi(argv[3]), atoi(argv[4]), atoi(argv[5]));
+  if (m == "hist" && argc == 7)
+    return do_hist(strcmp(argv[2], "real") == 0, argv[3], atoi(argv[4]), atoi(argv[5]), atoi(argv[6]), nullptr);
+  if (m == "one-hist" && argc == 5) {
+    // the single spelling STRING parsed in every step of the history; exit 1 if any step is wrong
+    int rc = do_hist(strcmp(argv[2], "real") == 0, argv[3], 0, 0, 1, argv[4]);
+    return rc;
+  }
   if (m == "one-fmt" && argc == 3) {
     uint64_t b = strtoull(argv[2], 0, 16);
     char buf[128]; memset(buf, 0, sizeof buf);
